@@ -162,8 +162,9 @@ class Repo:
         if not self.modules:
             raise AnalysisError('no python sources found under ' + self.root)
         # single-use private helpers are put back into their only caller ("extract method" undone; exact, see gxstat/absorb.py)
-        from .absorb import absorb_single_use_procedures
+        from .absorb import absorb_single_use_procedures, inline_expression_helpers
         self.absorbed: List[str] = absorb_single_use_procedures(self)
+        self.absorbed += ['expression helper ' + x for x in inline_expression_helpers(self)]
 
     # ------------------------------------------------------------------ loading
     def _load(self, path: str) -> None:
